@@ -428,6 +428,9 @@ pub struct Ctx {
     log16: Log,
     log32: Log,
     on: Arc<AtomicBool>,
+    /// which build-time checks the gadget under test is declared to have (`hwc`, 0/1 each); passed
+    /// through to the driver, and `c` = 1 adds the cap-taller-than-index regression case
+    checks: String,
 }
 
 fn bump(h: &mut BTreeMap<String, u64>, k: &str) {
@@ -466,6 +469,8 @@ enum Alt {
     ShiftRow(usize, usize),
     /// claim height `h` for matrix m (same power-of-two bucket)
     ClaimHeight(usize, usize),
+    /// commitment with `2^(nbits+1)` cap entries (the honest cap repeated): taller than the index
+    CapOversize,
 }
 
 impl Alt {
@@ -479,6 +484,7 @@ impl Alt {
             Alt::Cap(e, w) => format!("cap:{e}:{w}"),
             Alt::ShiftRow(a, b) => format!("shiftrow:{a}:{b}"),
             Alt::ClaimHeight(m, h) => format!("claimheight:{m}:{h}"),
+            Alt::CapOversize => "capoversize".into(),
         }
     }
     fn kind(&self) -> &'static str {
@@ -491,6 +497,7 @@ impl Alt {
             Alt::Cap(..) => "cap",
             Alt::ShiftRow(..) => "shift-row-boundary",
             Alt::ClaimHeight(..) => "claimed-height",
+            Alt::CapOversize => "cap-oversize",
         }
     }
     fn parse(s: &str) -> Option<Alt> {
@@ -505,6 +512,7 @@ impl Alt {
             "cap" => Alt::Cap(n(1)?, n(2)?),
             "shiftrow" => Alt::ShiftRow(n(1)?, n(2)?),
             "claimheight" => Alt::ClaimHeight(n(1)?, n(2)?),
+            "capoversize" => Alt::CapOversize,
             _ => return None,
         })
     }
@@ -514,6 +522,8 @@ impl Alt {
 /// `only` restricts to given (index, alteration) pairs (replay).
 #[allow(clippy::too_many_arguments)]
 fn run_group(cx: &mut Ctx, gid: &str, s: &Shape, data_seed: u64, n_indices: usize, all_positions: bool, only: Option<Vec<(usize, Alt)>>) {
+    let checks = cx.checks.clone();
+    let capbits_case = checks.as_bytes().get(2) == Some(&b'1');
     let mut r = Rng::new(data_seed);
     let (arity, ext, hiding) = (s.arity, s.ext, s.hiding);
     let mk16 = |real: bool| LogPerm::<16> {
@@ -562,7 +572,7 @@ fn run_group(cx: &mut Ctx, gid: &str, s: &Shape, data_seed: u64, n_indices: usiz
     // group header for the driver (inner view: base coefficients + salt per matrix)
     let header = |dims: &[Dimensions], row_lens: &[usize]| -> Vec<String> {
         let mut v = vec![format!(
-            "grp {gid} p {P} arity {arity} width {wd} rate {rate} dig {DIG} caph {} perm {} nbits {nbits}",
+            "grp {gid} p {P} arity {arity} width {wd} rate {rate} dig {DIG} caph {} perm {} nbits {nbits} checks {checks}",
             s.cap_height,
             if s.real_perm { "table" } else { "toy" }
         )];
@@ -648,6 +658,9 @@ fn run_group(cx: &mut Ctx, gid: &str, s: &Shape, data_seed: u64, n_indices: usiz
                     plan.push((idx, Alt::Cap(en, w)));
                 }
             }
+            if ii == 0 && arity == 2 && capbits_case {
+                plan.push((idx, Alt::CapOversize));
+            }
             if ii == 0 && !hiding && !ext {
                 // shape alterations (native shape checks vs gadget build-time checks)
                 for a in 0..s.mats.len() {
@@ -693,6 +706,23 @@ fn run_group(cx: &mut Ctx, gid: &str, s: &Shape, data_seed: u64, n_indices: usiz
                 o.rows[*b].insert(0, x);
                 let rl: Vec<usize> = o.rows.iter().map(Vec::len).collect();
                 rebuilt = Some(match catch_unwind(AssertUnwindSafe(|| build_circuit(arity, ext, hiding, &dims_c, &rl, &salt_lens, nbits, cap_len, &p16, &p32))) {
+                    Ok(x) => x,
+                    Err(_) => Err("panic".into()),
+                });
+            }
+            Alt::CapOversize => {
+                if !capbits_case || arity != 2 {
+                    // only meaningful for a gadget declared to have the cap-bits check (otherwise C15's F9p)
+                    bump(&mut cx.hist, "case.cap-oversize-skipped");
+                    continue;
+                }
+                let target = 1usize << (nbits + 1);
+                let honest = o.cap.clone();
+                while o.cap.len() < target {
+                    o.cap.extend(honest.iter().copied());
+                }
+                let cl = o.cap.len();
+                rebuilt = Some(match catch_unwind(AssertUnwindSafe(|| build_circuit(arity, ext, hiding, &dims_c, &row_lens, &salt_lens, nbits, cl, &p16, &p32))) {
                     Ok(x) => x,
                     Err(_) => Err("panic".into()),
                 });
@@ -789,7 +819,11 @@ fn run_group(cx: &mut Ctx, gid: &str, s: &Shape, data_seed: u64, n_indices: usiz
         // implementation oracle
         let n_ok = nv == "ok";
         let c_ok = cvc == "ok";
-        if n_ok != c_ok || cvc == "panic" || nv == "panic" || cvc == "setup-err" {
+        // A commitment with more cap entries than the index can address has no native meaning (the
+        // native cap height is configuration): the gadget must fail safely, i.e. not panic and not accept
+        // what native rejects; "native ok, gadget refuses to build" is the expected outcome.
+        let fails_safely = matches!(alt, Alt::CapOversize) && cvc != "panic" && nv != "panic" && !(c_ok && !n_ok);
+        if !fails_safely && (n_ok != c_ok || cvc == "panic" || nv == "panic" || cvc == "setup-err") {
             // the class names the direction, the native verdict and the situation (arity, cap,
             // alteration kind), so that a different failure of the same property is a different class
             let sit = format!("arity{arity}:{}:{}", if cap_len > 1 { "cap" } else { "root" }, alt.kind());
@@ -836,6 +870,11 @@ pub fn main(args: &crate::Args) {
         log16: Arc::new(Mutex::new(vec![])),
         log32: Arc::new(Mutex::new(vec![])),
         on: Arc::new(AtomicBool::new(false)),
+        checks: {
+            let c = args.str("gadget-checks", "000");
+            assert!(c.len() == 3 && c.bytes().all(|b| b == b'0' || b == b'1'), "--gadget-checks takes three 0/1 digits");
+            c
+        },
     };
     // corpus / replay first: {"shape":{...},"cases":[[index,"alt"],...]} (or wrapped in "replay")
     if let Some(dir) = args.opt("corpus") {
